@@ -34,6 +34,9 @@ pub struct VM {
     pub(crate) native_registry: HashMap<String, NativeFunctionImpl>,
 
     pub(crate) current_global_mapping_id: usize,
+    // the layout that is actually loaded in globals_by_index (None: the empty layout, id 0).
+    // A function whose own layout is empty runs with whatever layout is loaded.
+    pub(crate) current_global_layout: Option<Arc<aelys_bytecode::GlobalLayout>>,
     pub(crate) program_args: Vec<String>,
     pub(crate) script_path: Option<String>,
     pub(crate) repl_module_aliases: HashSet<String>,
